@@ -1,3 +1,10 @@
+#ifdef _WIN32
+#define _WIN32_WINNT 0x0501
+struct IUnknown;
+#include <winsock2.h>
+#else
+#include <sys/socket.h>
+#endif
 #include <asl/Socket.h>
 #include <asl/Var.h>
 #include <asl/Map.h>
@@ -5,6 +12,7 @@
 #include <asl/Http.h>
 #include <asl/JSON.h>
 #include <asl/TlsSocket.h>
+#include <asl/time.h>
 #include <ctype.h>
 
 #define SEND_BLOCK_SIZE 128000
@@ -752,6 +760,30 @@ void HttpMessage::useSink(const Shared<HttpSink>& s)
 	_sink->use(this);
 }
 
+// Ends a message that is delimited by the end of the connection. A plain close() while the peer's bytes are still unread
+// (a pipelined request, a CR LF behind a body) makes the system reset the connection and drop what is not yet sent: the
+// message would be cut short, and nothing tells the reader. So only the sending side is shut down (everything written is
+// delivered, then the end), what the peer still sends is read and dropped until it closes too (2 s at most), then the socket is closed.
+static void closeBehind(Socket& socket)
+{
+#ifdef _WIN32
+	::shutdown(socket.handle(), SD_SEND);
+#else
+	::shutdown(socket.handle(), SHUT_WR);
+#endif
+	byte dropped[4096];
+	double t1 = now();
+	while (now() - t1 < 2.0)
+	{
+		if (!socket.waitInput(0.1))
+			continue;
+		int n = socket.available();
+		if (n <= 0 || socket.read(dropped, min(n, (int)sizeof(dropped))) <= 0)
+			break;
+	}
+	socket.close();
+}
+
 // whether the last transfer coding is "chunked": then the chunks frame the body
 static bool endsChunked(const String& transferEncoding)
 {
@@ -817,7 +849,7 @@ bool HttpMessage::write()
 		*_socket << "0\r\n\r\n"; // last chunk
 	_ownChunks = false;
 	if (_endByClose)
-		_socket->close();
+		closeBehind(*_socket);
 	_endByClose = false;
 	_bodySent = true;
 	return ok;
@@ -954,7 +986,7 @@ bool HttpMessage::putFile(const String& path, int begin, int end)
 		*_socket << "0\r\n\r\n"; // last chunk
 	_ownChunks = false;
 	if (_endByClose)
-		_socket->close();
+		closeBehind(*_socket);
 	_endByClose = false;
 	_bodySent = true;
 
